@@ -179,6 +179,30 @@ CLAIMS.update({
             'TLA+ exact lattice model + TLC as oracle for patch outlines, Artist.tla kwargs law replayed, trace validation', 'DESIGN.md section 5 C18', 'artist'),
 })
 
+DS9_NOTE = ('Trusts TLC, the concretiser/tokenizer of abstract DS9 lines (vf/ds9text.py, ~250 lines, independent of the library regexes) and astropy '
+            'for angle parsing. The supported subset is the one the reader documents.')
+CLAIMS.update({
+    'C09': ('model_checking',
+            'Ds9Write.tla (SerializeOne, Translate, Hoist, EmitFrame, Skip) composed with the reader state machine of Ds9.tla is model-checked for '
+            'Read(Write(L)) = Expressible(L), skip-does-not-alter and the parse/serialise/parse fixed point over lists from a 14-region pool; with '
+            'the pre-fix deviations (include written verbatim / hoisted) the model itself yields the lost-exclusion counterexample. Every state is '
+            'replayed: the real text is tokenised independently and compared line by line with the model (hoisted keys, frame placement, per-line '
+            'properties, numbers), the real parse compared with the model, determinism; random lists of 1..8 regions (ten shapes, six frames, '
+            'precision 1..12) and all bundled .reg files go through two serialise/parse cycles; numbers validated by Trace_Ds9Write.tla.',
+            DS9_NOTE + ' Half-unit tolerance inclusive plus the resolution of a double; open findings: sizes below half a unit are written as 0.0; '
+            'annulus sizes that collide after rounding.',
+            'TLA+ writer+reader composition in TLC, spec->code replay with independent tokenizer, trace validation', 'DESIGN.md section 5 C09', 'ds9'),
+    'C10': ('model_checking',
+            'Ds9.tla: the reader as a line-consuming state machine (frame, global, composite, out, warn) with a lexical layer giving every '
+            'coordinate/size/angle token its canonical value (1-based pixel shift for positions only, semi-axes, bare = degrees/pixels, suffixes '
+            '", \', d, r, i, sexagesimal with hours only for equatorial longitudes), multi-radius expansion, precedence global < composite < sign < '
+            'inline; TLC checks no-region-without-frame, skip-is-stutter, non-interference, unsupported-frame-clears over all files of <= 3 lines '
+            '(+ framed 4-line files; 4 lines thorough) and a lexical config (shape x frame x notation x unit x sign). Every final state is rendered '
+            'in interchangeable styles and parsed by the real reader (regions, numbers to 1e-9, include, text, tags, colour precedence, warning '
+            'count); long generated files are validated by Trace_Ds9.tla.',
+            DS9_NOTE, 'TLA+ reader state machine + TLC, spec->code replay through a concretiser, trace validation', 'DESIGN.md section 5 C10', 'ds9'),
+})
+
 PENDING_REASON = ('specification module for this property is designed in DESIGN.md but its TLA+ module and '
                   'conformance binding are not built yet; not claimed until they are')
 
@@ -254,6 +278,8 @@ ENGINES.append({'name': 'wcs', 'path': 'specs/Wcs.tla specs/MC_Wcs.tla specs/Tra
                 'serves_properties': ['C06', 'C07'], 'kind_free_text': 'conformal affine WCS abstraction of region conversion'})
 ENGINES.append({'name': 'artist', 'path': 'specs/Artist.tla specs/Geometry.tla vf/engines/c18.py',
                 'serves_properties': ['C18'], 'kind_free_text': 'patch outlines against exact membership; kwargs merge law'})
+ENGINES.append({'name': 'ds9', 'path': 'specs/Ds9.tla specs/MC_Ds9.tla specs/Ds9Write.tla specs/MC_Ds9Write.tla specs/Trace_Ds9.tla specs/Trace_Ds9Write.tla vf/ds9text.py vf/engines/c09.py c10.py',
+                'serves_properties': ['C09', 'C10'], 'kind_free_text': 'DS9 reader state machine and writer model, concretiser and tokenizer'})
 NA = {}
 
 
